@@ -48,6 +48,7 @@ def parseParam (ws : List String) : Param :=
   | some v =>
     if v = "nil" || v = "" then .nil
     else if v = "tnil" then .tnil
+    else if v = "nilmap" then .map []          -- a nil map[string]interface{} is still a key map
     else if v.startsWith "sess:" then .sess (parseKVs (dropS v 5))
     else if v.startsWith "map:" then .map (parseKVs (dropS v 4))
     else if v.startsWith "str:" then .str (dropS v 4)
@@ -56,6 +57,14 @@ def parseParam (ws : List String) : Param :=
 def parseBeh (v : String) : Option Beh :=
   if v.startsWith "const:" then some (.const (dropS v 6))
   else if v.startsWith "key:" then some (.key (dropS v 4))
+  else if v.startsWith "keyd:" then
+    match (dropS v 5).splitOn "," with
+    | [k, d] => some (.keyd k d)
+    | _ => none
+  else if v.startsWith "nilor:" then
+    match (dropS v 6).splitOn "," with
+    | [nn, k] => some (.nilor nn k)
+    | _ => none
   else if v.startsWith "nest:" then
     match (dropS v 5).splitOn "," with
     | [k, tB, inner] => some (.nest k tB (parseKVs inner))
@@ -224,14 +233,19 @@ def sentinelNamed (ms : List Member) : Bool :=
 def flagExplicitOnMalformed : Bool := false
 
 def expect (s : SSt) (t : String) (p : Param) (routeOk : Bool) : Expect :=
-  let viaFunc (get : String → Option (Option Val)) : Expect :=
-    -- `get k` : none = the function cannot read the parameter (nil), some none = key absent
-    match s.rules.lookup t with
-    | some (some (.const n)) => .name n
-    | some (some (.key k)) | some (some (.nest k _ _)) =>     -- a nesting function answers from the OUTER parameter
+  -- `get k`: none = the function cannot read the parameter (nil / nil pointer), some none = key absent
+  -- (an EMPTY or nil key map is a readable parameter with every key absent); `untypedNil`: p == nil
+  let viaFunc (untypedNil : Bool) (get : String → Option (Option Val)) : Expect :=
+    let byKey (k dflt : String) : Expect :=
       match get k with
       | some (some (.str v)) => .name v
+      | some none => .name dflt          -- `Get` hands the function's default back ("" = no instance)
       | _ => .fail
+    match s.rules.lookup t with
+    | some (some (.const n)) => .name n
+    | some (some (.key k)) | some (some (.nest k _ _)) => byKey k ""   -- a nesting function answers from the OUTER parameter
+    | some (some (.keyd k d)) => byKey k d
+    | some (some (.nilor nn k)) => if untypedNil then .name nn else byKey k ""
     | some (some .empty) => .fail
     | some (some .panic) => .fail
     | some none | none => if s.hasDefault then .anyWorking t else .fail
@@ -239,10 +253,10 @@ def expect (s : SSt) (t : String) (p : Param) (routeOk : Bool) : Expect :=
   match p with
   | .str n => if routeOk || flagExplicitOnMalformed then .name n else .skip
   | .other => .fail
-  | .nil => viaFunc fun _ => none
-  | .tnil => viaFunc fun _ => none
-  | .sess l => viaFunc fun k => some (lastKey l k)
-  | .map l => viaFunc fun k => some (lastKey l k)
+  | .nil => viaFunc true fun _ => none
+  | .tnil => viaFunc false fun _ => none
+  | .sess l => viaFunc false fun k => some (lastKey l k)
+  | .map l => viaFunc false fun k => some (lastKey l k)
 
 /-- targets the property allows; `[]` = nothing may be sent -/
 def allowed (s : SSt) : Expect → List String
